@@ -13,6 +13,12 @@ RULES = {
     'NOTIFY-ON-FREE': 'every path that frees space producers wait on notifies the waiters',
     'EMIT-CONVERT': 'Stream.emit turns the _emit result into one awaitable (asynchronous) / waits for it inside sync() (blocking)',
     'SYNC-TRANSPORT': 'sync() stores the coroutine\'s exception and re-raises it in the calling thread; otherwise returns its result',
+    'SHARED-METADATA': 'the metadata list an update() receives is the very object every sibling downstream (and the emitter) '
+                       'receives: it is never edited in place - neither directly, nor through a field or container slot into '
+                       'which it was stored as it is',
+    'USER-CALL-SHAPE': 'the user callable of map / filter / sink is invoked as f(x, *extra, **kwargs), that of starmap as '
+                       'f(*x, *extra, **kwargs): the element (its members) first, then the extra positional arguments given at '
+                       'construction, in their order (frozen table from the class docstrings; compared on normal forms)',
     'META-PASS': 'where the emitted data derives from the current element only and the node buffers no metadata, the '
                  'metadata argument of _emit is the unmodified metadata parameter (one-to-many: exactly the last piece)',
     'AWAITABLE-RESULT': 'a node that hands what its user function returned back to the emitter (sink) drops that result only '
@@ -810,8 +816,228 @@ def check_awaitable_result(ctx, R, classes):
                     ok = True
             if not ok:
                 bad = '; '.join('%s is %s' % c for c in r.conds if not c[0].startswith('<'))[:200] or 'unconditionally'
+        # the other half: where the result is handed back to the caller (who yields on it), a test has found it awaitable
+        raw = None
+        for r in returning:
+            seen_true = False
+            for t, o in r.conds:
+                if t.startswith('<'):
+                    continue
+                t2, o2 = norm_cond(t, o)
+                try:
+                    e = ast.parse(t2, mode='eval').body
+                except SyntaxError:
+                    continue
+                if o2 is True and isinstance(e, ast.Call) and e.args and src(e.args[0]) in ucalls(r) and (
+                        src(e.func) in FULL_AWAITABLE_TESTS or any(k in src(e.func).lower() for k in
+                                                                   ('awaitable', 'coroutine', 'future', 'isinstance'))):
+                    seen_true = True
+            if not seen_true:
+                raw = src(r.ret)
+        R.ob('AWAITABLE-RESULT', con, 'returned-only-if-awaitable', raw is None,
+             'the user function\'s raw result %s is returned to the emitter on a path that has not found it awaitable: a plain '
+             'value among the results makes the coroutine that yields on them fail (tornado BadYieldError), it dies silently '
+             'and delivers nothing further' % raw, ctx.where(up, up.node.lineno), None, len(returning))
         if n:
             R.ob('AWAITABLE-RESULT', con, 'result', bad is None,
                  'the user function\'s result is dropped on a path that has not found gen.isawaitable(result) false [%s]: an '
                  'awaitable of a kind the narrower test does not know escapes unawaited (no backpressure, a native coroutine '
                  'never runs)' % bad, ctx.where(up, up.node.lineno), None, n)
+
+
+IN_PLACE = {'append', 'appendleft', 'extend', 'extendleft', 'insert', 'clear', 'pop', 'popleft', 'remove', 'sort', 'reverse', 'update',
+            'setdefault', 'popitem', 'rotate'}
+
+
+def _plain_field(n):
+    """self.F exactly (not a subscript of it)"""
+    if isinstance(n, ast.Attribute) and isinstance(n.value, ast.Name) and n.value.id == 'self':
+        return n.attr
+    return None
+
+
+def check_shared_metadata(ctx, R, classes):
+    """see RULES['SHARED-METADATA'].  Levels: 0 = the field itself is the received list (self.F = metadata), 1 = a slot / item of
+    the field is (self.F[k] = metadata, self.F.append(metadata)).  An in-place edit at the same level of the same field edits the
+    shared list.  Local aliases (v = self.F[k], for v in self.F.values()) are followed inside one method."""
+    for cls in classes:
+        holders, direct, n_params = {}, None, 0
+        for fn in cls.methods.values():
+            if 'metadata' not in fn.params():
+                continue
+            n_params += 1
+            al = {'metadata'}
+            assigns = [n for n in own_nodes(fn.node) if isinstance(n, ast.Assign) and len(n.targets) == 1]
+
+            def yields(v):
+                if isinstance(v, ast.Name):
+                    return v.id in al
+                if isinstance(v, ast.BoolOp):
+                    return any(yields(y) for y in v.values)
+                if isinstance(v, ast.IfExp):
+                    return yields(v.body) or yields(v.orelse)
+                return False
+            for n in assigns:
+                if isinstance(n.targets[0], ast.Name) and isinstance(n.value, ast.Name) and n.value.id in al:
+                    al.add(n.targets[0].id)
+            # a name re-bound to something fresh is no longer the shared list from there on
+            fresh = {}
+            for n in assigns:
+                t = n.targets[0]
+                if isinstance(t, ast.Name) and t.id in al and not yields(n.value):
+                    fresh[t.id] = min(fresh.get(t.id, n.lineno), n.lineno)
+            for n in own_nodes(fn.node):
+                tgt = None
+                if isinstance(n, ast.Call) and isinstance(n.func, ast.Attribute) and n.func.attr in IN_PLACE \
+                        and isinstance(n.func.value, ast.Name) and n.func.value.id in al:
+                    tgt = n.func.value.id
+                elif isinstance(n, ast.AugAssign) and isinstance(n.target, ast.Name) and n.target.id in al:
+                    tgt = n.target.id
+                elif isinstance(n, ast.Subscript) and isinstance(n.ctx, (ast.Store, ast.Del)) and isinstance(n.value, ast.Name) \
+                        and n.value.id in al:
+                    tgt = n.value.id
+                if tgt is not None and not (tgt in fresh and fresh[tgt] < n.lineno):
+                    direct = (fn, n, tgt)
+            for n in own_nodes(fn.node):
+                if isinstance(n, ast.Assign):
+                    for t in n.targets:
+                        if _plain_field(t) and yields(n.value):
+                            holders.setdefault((_plain_field(t), 0), (fn, n))
+                        elif isinstance(t, ast.Subscript) and _plain_field(t.value) and yields(n.value):
+                            holders.setdefault((_plain_field(t.value), 1), (fn, n))
+                elif isinstance(n, ast.Call) and isinstance(n.func, ast.Attribute) and n.func.attr in ('append', 'appendleft', 'insert') \
+                        and _plain_field(n.func.value) and n.args and yields(n.args[-1]):
+                    holders.setdefault((_plain_field(n.func.value), 1), (fn, n))
+        if not n_params:
+            continue
+        con = '%s.%s' % (cls.module.name, cls.name)
+        some = next(iter(cls.methods.values()))
+        if direct is not None or any('metadata' in fn.params() and fn.cls is cls for fn in cls.methods.values()):
+            fn0 = direct[0] if direct else next(fn for fn in cls.methods.values() if 'metadata' in fn.params() and fn.cls is cls)
+            R.ob('SHARED-METADATA', con, 'parameter-not-edited', direct is None,
+                 'the received metadata list is edited in place (%s, line %d): the emitter and every sibling downstream hold the same '
+                 'list object' % (src(direct[1])[:70], direct[1].lineno) if direct else '',
+                 ctx.where(fn0, direct[1].lineno if direct else fn0.node.lineno))
+        if not holders:
+            continue
+        # in-place edits per (field, level)
+        edits = {}
+        for fn in cls.methods.values():
+            lal = {}            # local name -> field whose item it is
+            for n in own_nodes(fn.node):
+                if isinstance(n, ast.Assign) and len(n.targets) == 1 and isinstance(n.targets[0], ast.Name):
+                    v = n.value
+                    if isinstance(v, ast.Subscript) and _plain_field(v.value):
+                        lal[n.targets[0].id] = _plain_field(v.value)
+                    elif isinstance(v, ast.Call) and isinstance(v.func, ast.Attribute) and _plain_field(v.func.value) \
+                            and v.func.attr in ('get', 'pop', 'popleft', 'setdefault'):
+                        lal[n.targets[0].id] = _plain_field(v.func.value)
+                elif isinstance(n, (ast.For, ast.comprehension)) and isinstance(n.target, ast.Name):
+                    it = n.iter
+                    if isinstance(it, ast.Call) and isinstance(it.func, ast.Attribute) and it.func.attr == 'values':
+                        it = it.func.value
+                    if isinstance(it, ast.Call) and isinstance(it.func, ast.Name) and it.func.id in ('list', 'tuple') and it.args:
+                        it = it.args[0]
+                    if _plain_field(it):
+                        lal[n.target.id] = _plain_field(it)
+
+            def level(v):
+                if _plain_field(v):
+                    return _plain_field(v), 0
+                if isinstance(v, ast.Subscript) and _plain_field(v.value):
+                    return _plain_field(v.value), 1
+                if isinstance(v, ast.Name) and v.id in lal:
+                    return lal[v.id], 1
+                return None
+            for n in own_nodes(fn.node):
+                lv = None
+                if isinstance(n, ast.Call) and isinstance(n.func, ast.Attribute) and n.func.attr in IN_PLACE:
+                    lv = level(n.func.value)
+                elif isinstance(n, ast.AugAssign):
+                    lv = level(n.target)
+                elif isinstance(n, ast.Subscript) and isinstance(n.ctx, (ast.Store, ast.Del)):
+                    lv = level(n.value)
+                if lv is not None:
+                    edits.setdefault(lv, (fn, n))
+        for (f, lv), (hfn, hn) in sorted(holders.items(), key=lambda kv: kv[0]):
+            e = edits.get((f, lv))
+            R.ob('SHARED-METADATA', con, 'self.%s%s' % (f, '[]' if lv else ''), e is None,
+                 'the received metadata list is stored as it is (%s, line %d) and what is stored there is edited in place (%s, %s line '
+                 '%d): the emitter and every sibling downstream hold the same list object and see the edit'
+                 % (src(hn)[:60], hn.lineno, src(e[1])[:60], e[0].name, e[1].lineno) if e else '',
+                 ctx.where(hfn, hn.lineno))
+
+
+# documented calling convention of the user callable: positional arguments in order (X = the element, *X = its members splayed,
+# *EXTRA = the extra positional arguments given at construction)
+USER_CALL_TABLE = {
+    ('streamz.core', 'map'): ['X', '*EXTRA'],
+    ('streamz.core', 'map_async'): ['X', '*EXTRA'],
+    ('streamz.core', 'starmap'): ['*X', '*EXTRA'],
+    ('streamz.core', 'filter'): ['X', '*EXTRA'],
+    ('streamz.sinks', 'sink'): ['X', '*EXTRA'],
+}
+
+
+def flat_positional_nodes(args):
+    """normal form of a positional argument list: *(a + b) = *a, *b;  *(p, *q) = p, *q;  *tuple(a) = *a"""
+    out = []
+    for a in args:
+        if isinstance(a, ast.Starred):
+            v = a.value
+            if isinstance(v, ast.BinOp) and isinstance(v.op, ast.Add):
+                out.extend(flat_positional_nodes([ast.Starred(value=v.left, ctx=ast.Load()), ast.Starred(value=v.right, ctx=ast.Load())]))
+            elif isinstance(v, (ast.Tuple, ast.List)):
+                out.extend(flat_positional_nodes(v.elts))
+            elif isinstance(v, ast.Call) and isinstance(v.func, ast.Name) and v.func.id in ('tuple', 'list') and len(v.args) == 1 \
+                    and not v.keywords:
+                out.extend(flat_positional_nodes([ast.Starred(value=v.args[0], ctx=ast.Load())]))
+            else:
+                out.append(a)
+        else:
+            out.append(a)
+    return out
+
+
+def _flat_positional(args):
+    return [src(a) for a in flat_positional_nodes(args)]
+
+
+def check_user_call_shape(ctx, R):
+    """see RULES['USER-CALL-SHAPE']"""
+    from ..symexpr import SymEval
+    M = ctx.model
+    R.table('USER_CALL_TABLE', {'%s.%s' % k: ', '.join(v) for k, v in USER_CALL_TABLE.items()})
+    for (mod, cn), want in USER_CALL_TABLE.items():
+        try:
+            cls = M.cls(mod, cn)
+        except Exception:
+            continue
+        up = cls.find('update')
+        init = cls.find('__init__')
+        if up is None or init is None:
+            continue
+        # the field that keeps the constructor's *args
+        va = init.node.args.vararg.arg if init.node.args.vararg else None
+        extra = [self_field(t) for n in own_nodes(init.node) if isinstance(n, ast.Assign) and isinstance(n.value, ast.Name)
+                 and n.value.id == va for t in n.targets if self_field(t)]
+        if not extra:
+            continue
+        xname = [p_ for p_ in up.params() if p_ != 'self'][0]
+        exp = [w.replace('EXTRA', 'self.' + extra[0]).replace('X', xname) for w in want]
+        try:
+            recs = [r for r in SymEval(M, cls).run(up) if not r.raised]
+        except AnalysisError:
+            continue
+        bad, n = None, 0
+        for r in recs:
+            for c, _s, _l in r.calls:
+                if isinstance(c, ast.Call) and isinstance(c.func, ast.Attribute) and isinstance(c.func.value, ast.Name) \
+                        and c.func.value.id == 'self' and cls.find(c.func.attr) is None and c.func.attr not in ('loop',) \
+                        and any(isinstance(y, ast.Name) and y.id == xname for a in c.args for y in ast.walk(a)):
+                    n += 1
+                    got = _flat_positional(c.args)
+                    if got != exp:
+                        bad = 'self.%s is called with (%s), documented is (%s)' % (c.func.attr, ', '.join(got), ', '.join(exp))
+        if n:
+            R.ob('USER-CALL-SHAPE', ctx.construct(up), 'positional-order', bad is None, bad or '', ctx.where(up, up.node.lineno), None, n)
